@@ -168,6 +168,14 @@ pub struct Violation {
     pub msg: String,
     pub devs: Vec<(u32, u8)>,
     pub out: String,
+    /// matches an entry of the known-findings file (decided when it is recorded: listed and unlisted violations have
+    /// separate storage quotas, and only unlisted ones can end a scenario early)
+    pub known: bool,
+}
+
+fn known_list() -> &'static Vec<crate::report::Known> {
+    static K: std::sync::OnceLock<Vec<crate::report::Known>> = std::sync::OnceLock::new();
+    K.get_or_init(crate::report::load_known)
 }
 
 /// summary of one execution as read from the shared page
@@ -387,7 +395,7 @@ impl ScenarioResult {
             "threads_active_max": self.threads_active_max, "reused_max": self.reused_max, "sub_evals": self.sub_evals,
             "violation_count": self.violation_count,
             "violations": self.violations.iter().map(|v| json!({
-                "scenario": v.scenario, "status": v.status, "clause": v.clause, "msg": v.msg, "out": v.out,
+                "scenario": v.scenario, "status": v.status, "clause": v.clause, "msg": v.msg, "out": v.out, "known": v.known,
                 "devs": v.devs.iter().map(|(i, a)| json!([i, a])).collect::<Vec<_>>() })).collect::<Vec<_>>(),
             "machinery": self.machinery, "rechecks": self.rechecks, "sample": self.sample, "wall": self.wall,
         })
@@ -430,6 +438,7 @@ impl ScenarioResult {
                 clause: x["clause"].as_str().unwrap_or("").to_string(),
                 msg: x["msg"].as_str().unwrap_or("").to_string(),
                 out: x["out"].as_str().unwrap_or("").to_string(),
+                known: x["known"].as_bool().unwrap_or(false),
                 devs: x["devs"].as_array().map(|d| d.iter().map(|p| (p[0].as_u64().unwrap_or(0) as u32, p[1].as_u64().unwrap_or(0) as u8)).collect()).unwrap_or_default(),
             }).collect()).unwrap_or_default(),
             machinery: v["machinery"].as_array().map(|a| a.iter().map(|x| x.as_str().unwrap_or("").to_string()).collect()).unwrap_or_default(),
@@ -472,7 +481,7 @@ impl ScenarioResult {
         self.sub_evals += o.sub_evals;
         self.violation_count += o.violation_count;
         for v in o.violations {
-            if self.violations.len() < 12 {
+            if self.violations.iter().filter(|x| x.known == v.known).count() < 12 {
                 self.violations.push(v);
             }
         }
@@ -541,8 +550,10 @@ pub fn explore(sc: &Scenario, opts: &Opts) -> ScenarioResult {
                             break;
                         }
                         // a scenario that has produced its three replay files per clause has said what it has to say
-                        if res.violations.len() >= 3 && t0.elapsed().as_secs_f64() > 20.0 {
-                            capped = Some(format!("stopped in level {}: {} violations recorded", d, res.violations.len()));
+                        // (violations that match a listed known finding do not count: the search for others goes on)
+                        let unlisted = res.violations.iter().filter(|v| !v.known).count();
+                        if unlisted >= 3 && t0.elapsed().as_secs_f64() > 20.0 {
+                            capped = Some(format!("stopped in level {}: {} violations recorded", d, unlisted));
                             break;
                         }
                         if let Some(p) = it.next() {
@@ -608,16 +619,19 @@ pub fn explore(sc: &Scenario, opts: &Opts) -> ScenarioResult {
                     let hang = matches!(sum.status, ST_DEADLOCK | ST_STALL);
                     if !(hang && sc.hang_ok) {
                         res.violation_count += 1;
-                        let dup = res.violations.iter().filter(|v| v.clause == sum.clause).count();
-                        if dup < 3 && res.violations.len() < 12 {
-                            res.violations.push(Violation {
-                                scenario: sc.name.clone(),
-                                status: sum.status,
-                                clause: sum.clause.clone(),
-                                msg: sum.msg.clone(),
-                                devs: slot.sched.devs.clone(),
-                                out: sum.out.clone(),
-                            });
+                        let mut v = Violation {
+                            scenario: sc.name.clone(),
+                            status: sum.status,
+                            clause: sum.clause.clone(),
+                            msg: sum.msg.clone(),
+                            devs: slot.sched.devs.clone(),
+                            out: sum.out.clone(),
+                            known: false,
+                        };
+                        v.known = known_list().iter().any(|k| crate::report::matches_known(k, sc.prop, &v));
+                        let dup = res.violations.iter().filter(|x| x.clause == v.clause && x.known == v.known).count();
+                        if dup < 3 && res.violations.iter().filter(|x| x.known == v.known).count() < 12 {
+                            res.violations.push(v);
                         }
                     }
                 }
